@@ -213,6 +213,15 @@ def gen_case(rnd):
                 t["elements"] = {str(rnd.choice(ids)): {"hide": True}}
             if rnd.random() < 0.3:
                 t["order"] = {"type": "explicit", "element_ids": rnd.sample(ids, len(ids))}
+        else:
+            # array items referenced by numeric element id (int or string) or by alias (C19)
+            def spell(i):
+                return rnd.choice([i + 1, str(i + 1), "%s_%d" % (d["name"], i)])
+
+            if rnd.random() < 0.3:
+                t["order"] = {"type": "explicit", "element_ids": [spell(i) for i in rnd.sample(range(d["n"]), d["n"])]}
+            if rnd.random() < 0.25:
+                t["elements"] = {str(spell(rnd.randrange(d["n"]))): {"hide": True}}
         if rnd.random() < 0.4:
             t["prune"] = True
         if t:
@@ -537,11 +546,15 @@ class EndToEnd(EnumContract):
 
         def hidden(d, t):
             out = set()
-            if d["kind"] != "MR":
-                V = valid_elems(d)
-                for k, v in (t.get("elements") or {}).items():
-                    if v.get("hide"):
-                        out |= {n for n, i in enumerate(V) if d["cats"][i]["id"] == int(k)}
+            for k, v in (t.get("elements") or {}).items():
+                if not v.get("hide"):
+                    continue
+                if d["kind"] != "MR":
+                    V = valid_elems(d)
+                    out |= {n for n, i in enumerate(V) if d["cats"][i]["id"] == int(k)}
+                else:
+                    aliases = ["%s_%d" % (d["name"], i) for i in range(d["n"])]
+                    out.add(aliases.index(k) if k in aliases else int(k) - 1)
             return out
 
         r_empty = [empty(rd, ri, i, cd, ci, C) for i in R]
